@@ -646,7 +646,11 @@ pub fn layout(rng: &mut Rng, toks: &[Tok], lo: &Layout) -> (String, Vec<usize>, 
         let allow = lo.comment_gaps.map_or(true, |g| g.contains(&t.gap));
         if allow && lo.comment_pct > 0 && rng.below(100) < lo.comment_pct {
             if !s.is_empty() && !s.ends_with('\n') {
-                s.push_str(if rng.chance(1, 2) { "\n" } else { " " });
+                // a comment may also stand directly behind the token in front of it (`else// c`, `{// c`, `;// c`) —
+                // except behind `/`, where the three characters would be a different token sequence
+                if s.ends_with('/') || !rng.chance(1, 4) {
+                    s.push_str(if rng.chance(1, 2) { "\n" } else { " " });
+                }
             }
             for _ in 0..(1 + rng.below(2)) {
                 let n_bodies = if rng.chance(1, 6) { 6 } else { 5 };
@@ -675,7 +679,9 @@ pub fn layout(rng: &mut Rng, toks: &[Tok], lo: &Layout) -> (String, Vec<usize>, 
             let sep = if lo.compact {
                 if must { " " } else { "" }
             } else {
-                match rng.below(10) {
+                match rng.below(11) {
+                    // blank lines, also with two different line terminators back to back
+                    10 => *rng.pick(&["\n\n", "\r\n\n", "\n\r\n", "\r\n\r\n", "\r\n\n\n", "\n\n    "]),
                     0 | 1 => "\n",
                     2 => "\n    ",
                     3 => "  ",
